@@ -680,14 +680,14 @@ Lemma value_ok_here W strict sub path d op x :
         end).
 Proof. unfold value_ok. cbn [negb andb fst]. rewrite N.eqb_refl. reflexivity. Qed.
 
-Lemma members_mirror W :
-  wf_names W = true ->
+Lemma members_mirror W strict :
+  wf_names W = true -> (strict = false \/ no_enum_members W = true) ->
   forall fuel hist path t cls,
     In t (w_types W) -> inv hist path -> remaining W hist < fuel ->
-    mirrors W false path t
+    mirrors W strict path t
             (PObj cls (iter_items (ordering (all_items W t)) (members W fuel hist t))) = true.
 Proof.
-  intros Hwf. induction fuel as [|f IH]; intros hist path t cls Ht Hinv Hrem; [lia|].
+  intros Hwf Hs. induction fuel as [|f IH]; intros hist path t cls Ht Hinv Hrem; [lia|].
   change (members W (Datatypes.S f) hist t) with (built W (members W f) hist (all_items W t)).
   pose proof (wf_names_nodup W t Hwf Ht) as Hnd.
   rewrite iter_built by exact Hnd.
@@ -714,7 +714,7 @@ Proof.
           rewrite exp_members_items, exp_attrs_items, Eit. reflexivity. }
         destruct (e_opt d) eqn:Eo.
         { rewrite value_ok_here, Em, Eo. reflexivity. }
-        assert (Hsub : mirrors W false ((ns, n) :: path) t'
+        assert (Hsub : mirrors W strict ((ns, n) :: path) t'
                   (PObj (c_name t') (iter_items (ordering (it0 :: its0))
                                                  (members W f ((o, i, d) :: hist) t'))) = true).
         { rewrite <- Eit. apply IH.
@@ -738,7 +738,11 @@ Proof.
         { rewrite value_ok_here, Em, Ety, Efn. destruct (e_opt d); reflexivity. }
         destruct (e_opt d) eqn:Eo.
         { rewrite value_ok_here, Em, Eo. reflexivity. }
-        rewrite value_ok_here, Em, Eo, Ety, Efn. reflexivity.
+        rewrite value_ok_here, Em, Eo, Ety, Efn.
+        destruct Hs as [->|Hg]; [reflexivity|].
+        exfalso. unfold no_enum_members in Hg. rewrite forallb_forall in Hg.
+        specialize (Hg t Ht). rewrite forallb_forall in Hg. specialize (Hg _ Hit).
+        cbn [orb] in Hg. unfold enum_member in Hg. rewrite Em, Eo, Ety, Efn in Hg. discriminate.
 Qed.
 
 Lemma inv_nil path : inv [] path.
@@ -747,14 +751,27 @@ Proof. intros h []. Qed.
 Lemma build_fuel_enough W hist : remaining W hist < build_fuel W.
 Proof. unfold build_fuel. pose proof (remaining_le W hist). lia. Qed.
 
-Lemma create_mirrors_type_l W t :
-  wf_names W = true -> In t (w_types W) ->
-  mirrors W false [qn_of t] t (build_root W (SComplex t)) = true.
+Lemma create_mirrors_type_gen W strict t :
+  wf_names W = true -> (strict = false \/ no_enum_members W = true) -> In t (w_types W) ->
+  mirrors W strict [qn_of t] t (build_root W (SComplex t)) = true.
 Proof.
-  intros Hwf Ht. cbn [build_root]. apply members_mirror; auto.
+  intros Hwf Hs Ht. cbn [build_root]. apply members_mirror; auto.
   - apply inv_nil.
   - apply build_fuel_enough.
 Qed.
+
+Lemma create_mirrors_type_l W t :
+  wf_names W = true -> In t (w_types W) ->
+  mirrors W false [qn_of t] t (build_root W (SComplex t)) = true.
+Proof. intros. apply create_mirrors_type_gen; auto. Qed.
+
+Lemma members_mirror_lenient W :
+  wf_names W = true ->
+  forall fuel hist path t cls,
+    In t (w_types W) -> inv hist path -> remaining W hist < fuel ->
+    mirrors W false path t
+            (PObj cls (iter_items (ordering (all_items W t)) (members W fuel hist t))) = true.
+Proof. intros H. apply members_mirror; auto. Qed.
 
 (* ------------------------------------------------------------------ *)
 (* fuel suffices                                                       *)
